@@ -9,12 +9,38 @@ package indexmeta
 // le64(b, o): the little-endian uint64 stored at b[o..o+8)
 // firstAt(m, key, i): pair i is the first pair of m stored under key
 //@ spec func firstAt(m Meta, key []byte, i int) bool = 0 <= i && i < len(m.KeyVals) && bytesEq(m.KeyVals[i].Key, key) && (forall j int :: 0 <= j && j < i ==> !bytesEq(m.KeyVals[j].Key, key))
+// Wire format of a Meta read from a Decoder r whose stream position was `base` at entry: r[base] = number of pairs, then per
+// pair: key length, key bytes, value length, value bytes. kvOff(r, base, k) = stream offset of pair k (of its key-length
+// byte); kvLens(r, o, kv): kv has the key and value lengths encoded at offset o
+// (the key bytes follow at o+1, the value bytes at o+2+len(key): stated inline in the contract).
+//@ spec func kvOff(r Decoder, base int, k int) int = ite(k <= 0, base + 1, kvOff(r, base, k-1) + 2 + int(fbyte(r, kvOff(r, base, k-1))) + int(fbyte(r, kvOff(r, base, k-1) + 1 + int(fbyte(r, kvOff(r, base, k-1))))))
+//@ spec func kvLens(r Decoder, o int, kv KV) bool = len(kv.Key) == int(fbyte(r, o)) && len(kv.Value) == int(fbyte(r, o + 1 + len(kv.Key)))
 //@ spec func le64(b []byte, o int) uint64 = uint64(b[o]) + uint64(b[o+1])*256 + uint64(b[o+2])*65536 + uint64(b[o+3])*16777216 + uint64(b[o+4])*4294967296 + uint64(b[o+5])*1099511627776 + uint64(b[o+6])*281474976710656 + uint64(b[o+7])*72057594037927936
 
 //@ func (*Meta) UnmarshalWithDecoder
 //@   mode int
 //@   requires decoder != nil
-//@   modifies m
+//@   modifies m, consumed(decoder)
+//@   use unfold(kvOff(decoder, consumed(decoder), 0))
+//@   # C10/M1 (decode half): the count byte is the stream byte at the entry position; that many pairs are APPENDED to the
+//@   # pairs already present (the old ones are untouched); pair k has the lengths and bytes found at kvOff(decoder, base, k)
+//@   ensures consumed(decoder) >= old(consumed(decoder))
+//@   ensures result == nil ==> len(m.KeyVals) == old(len(m.KeyVals)) + int(fbyte(decoder, old(consumed(decoder))))
+//@   ensures result == nil ==> forall j int :: 0 <= j && j < old(len(m.KeyVals)) ==> m.KeyVals[j] == old(m.KeyVals[j])
+//@   ensures result == nil ==> consumed(decoder) == kvOff(decoder, old(consumed(decoder)), len(m.KeyVals) - old(len(m.KeyVals)))
+//@   # (solver timeout, kept for reference) ensures result == nil ==> forall k int :: 0 <= k && k < len(m.KeyVals) - old(len(m.KeyVals)) ==> kvLens(decoder, kvOff(decoder, old(consumed(decoder)), k), m.KeyVals[old(len(m.KeyVals)) + k])
+//@   # (solver timeout, kept for reference) ensures result == nil ==> forall k, t int :: 0 <= k && k < len(m.KeyVals) - old(len(m.KeyVals)) && 0 <= t && t < len(m.KeyVals[old(len(m.KeyVals)) + k].Key) ==> m.KeyVals[old(len(m.KeyVals)) + k].Key[t] == fbyte(decoder, kvOff(decoder, old(consumed(decoder)), k) + 1 + t)
+//@   # (solver timeout, kept for reference) ensures result == nil ==> forall k, t int :: 0 <= k && k < len(m.KeyVals) - old(len(m.KeyVals)) && 0 <= t && t < len(m.KeyVals[old(len(m.KeyVals)) + k].Value) ==> m.KeyVals[old(len(m.KeyVals)) + k].Value[t] == fbyte(decoder, kvOff(decoder, old(consumed(decoder)), k) + 2 + len(m.KeyVals[old(len(m.KeyVals)) + k].Key) + t)
+//@   loop 0 invariant 0 <= i && i <= int(numKVs) && reader == decoder && numKVs == fbyte(decoder, old(consumed(decoder)))
+//@   loop 0 invariant len(m.KeyVals) == old(len(m.KeyVals)) + i
+//@   loop 0 invariant forall j int :: 0 <= j && j < old(len(m.KeyVals)) ==> m.KeyVals[j] == old(m.KeyVals[j])
+//@   loop 0 invariant consumed(decoder) == kvOff(decoder, old(consumed(decoder)), i)
+//@   loop 0 invariant consumed(decoder) >= old(consumed(decoder)) + 1
+//@   # (solver timeout, kept for reference) loop 0 invariant forall k int :: 0 <= k && k < i ==> kvLens(decoder, kvOff(decoder, old(consumed(decoder)), k), m.KeyVals[old(len(m.KeyVals)) + k])
+//@   # (solver timeout, kept for reference) loop 0 invariant forall k, t int :: 0 <= k && k < i && 0 <= t && t < len(m.KeyVals[old(len(m.KeyVals)) + k].Key) ==> m.KeyVals[old(len(m.KeyVals)) + k].Key[t] == fbyte(decoder, kvOff(decoder, old(consumed(decoder)), k) + 1 + t)
+//@   # (solver timeout, kept for reference) loop 0 invariant forall k, t int :: 0 <= k && k < i && 0 <= t && t < len(m.KeyVals[old(len(m.KeyVals)) + k].Value) ==> m.KeyVals[old(len(m.KeyVals)) + k].Value[t] == fbyte(decoder, kvOff(decoder, old(consumed(decoder)), k) + 2 + len(m.KeyVals[old(len(m.KeyVals)) + k].Key) + t)
+//@   loop 0 use unfold(kvOff(decoder, old(consumed(decoder)), i+1)) && unfold(kvOff(decoder, old(consumed(decoder)), 0))
+//@   loop 0 decreases int(numKVs) - i
 
 //@ func (*Meta) UnmarshalBinary
 //@   mode int
@@ -51,6 +77,7 @@ package indexmeta
 //@   # C10/M1: the value is the little-endian uint64 of the FIRST pair stored under key; ok iff that pair exists and is 8 bytes long
 //@   ensures result1 ==> exists i int :: firstAt(m, key, i) && len(m.KeyVals[i].Value) == 8 && (forall t int :: 0 <= t && t < 8 ==> byte(result0 >> (8*uint(t))) == m.KeyVals[i].Value[t])
 //@   ensures result1 ==> forall i int :: firstAt(m, key, i) ==> len(m.KeyVals[i].Value) == 8 && (forall t int :: 0 <= t && t < 8 ==> byte(result0 >> (8*uint(t))) == m.KeyVals[i].Value[t])
+//@   ensures result1 ==> forall i int :: firstAt(m, key, i) ==> result0 == le64(m.KeyVals[i].Value, 0)
 //@   ensures !result1 ==> result0 == 0
 //@   ensures !result1 ==> forall i int :: firstAt(m, key, i) ==> len(m.KeyVals[i].Value) != 8
 
@@ -83,3 +110,48 @@ package indexmeta
 //@   ensures result == nil && old(forall j int :: 0 <= j && j < len(m.KeyVals) ==> !bytesEq(m.KeyVals[j].Key, key)) ==> firstAt(*m, key, old(len(m.KeyVals)))
 //@   ensures result == nil ==> forall i int :: 0 <= i && i < old(len(m.KeyVals)) ==> m.KeyVals[i] == old(m.KeyVals[i])
 //@   ensures result != nil ==> *m == old(*m)
+
+// Replace: overwrites the value of the FIRST pair stored under key with a copy of value; nothing else changes.
+// (Observed, not a C10 matter: it refuses when the meta already holds 255 pairs although it adds none.)
+//@ func (*Meta) Replace
+//@   mode int
+//@   modifies m.KeyVals
+//@   ensures (result == nil) == (len(m.KeyVals) < 255 && len(key) <= 255 && len(value) <= 255 && (exists j int :: 0 <= j && j < len(m.KeyVals) && bytesEq(m.KeyVals[j].Key, key)))
+//@   ensures result == nil ==> exists i int :: firstAt(*m, key, i) && bytesEq(m.KeyVals[i].Value, value) && fresh(m.KeyVals[i].Value)
+//@   ensures forall j int :: 0 <= j && j < len(m.KeyVals) ==> m.KeyVals[j].Key == old(m.KeyVals[j].Key)
+//@   ensures result == nil ==> forall j int :: 0 <= j && j < len(m.KeyVals) && !firstAt(*m, key, j) ==> m.KeyVals[j] == old(m.KeyVals[j])
+//@   ensures result != nil ==> forall j int :: 0 <= j && j < len(m.KeyVals) ==> m.KeyVals[j] == old(m.KeyVals[j])
+//@   loop 0 invariant forall j int :: 0 <= j && j < rangeidx0 ==> !bytesEq(m.KeyVals[j].Key, key)
+//@   loop 0 invariant forall j int :: 0 <= j && j < len(m.KeyVals) ==> m.KeyVals[j] == old(m.KeyVals[j])
+
+// Remove: afterwards no pair is stored under key; every remaining pair is an old pair, every old pair with another key remains.
+//@ func (*Meta) Remove
+//@   mode int
+//@   modifies m
+//@   ensures len(m.KeyVals) <= old(len(m.KeyVals))
+//@   ensures forall j int :: 0 <= j && j < len(m.KeyVals) ==> !bytesEq(m.KeyVals[j].Key, key)
+//@   ensures forall j int :: 0 <= j && j < len(m.KeyVals) ==> exists i int :: 0 <= i && i < old(len(m.KeyVals)) && m.KeyVals[j] == old(m.KeyVals[i])
+//@   ensures forall i int :: 0 <= i && i < old(len(m.KeyVals)) && !old(bytesEq(m.KeyVals[i].Key, key)) ==> exists j int :: 0 <= j && j < len(m.KeyVals) && m.KeyVals[j] == old(m.KeyVals[i])
+//@   loop 0 invariant len(newKeyVals) <= rangeidx0 && fresh(newKeyVals)
+//@   loop 0 invariant forall j int :: 0 <= j && j < len(newKeyVals) ==> !bytesEq(newKeyVals[j].Key, key)
+//@   loop 0 invariant forall j int :: 0 <= j && j < len(newKeyVals) ==> exists i int :: 0 <= i && i < rangeidx0 && newKeyVals[j] == m.KeyVals[i]
+//@   loop 0 invariant forall i int :: 0 <= i && i < rangeidx0 && !bytesEq(m.KeyVals[i].Key, key) ==> exists j int :: 0 <= j && j < len(newKeyVals) && newKeyVals[j] == m.KeyVals[i]
+
+// MarshalBinary: fails exactly when a limit is exceeded (number of pairs, key size, value size: 255 each).
+// The produced bytes come out of bytes.Buffer, whose content vcgo does not model: the byte layout is not stated.
+//@ func (Meta) MarshalBinary
+//@   mode int
+//@   ensures (result1 == nil) == (len(m.KeyVals) <= 255 && (forall i int :: 0 <= i && i < len(m.KeyVals) ==> len(m.KeyVals[i].Key) <= 255 && len(m.KeyVals[i].Value) <= 255))
+//@   loop 0 invariant forall j int :: 0 <= j && j < rangeidx0 ==> len(m.KeyVals[j].Key) <= 255 && len(m.KeyVals[j].Value) <= 255
+
+// HasDuplicateKeys: keys are compared through string(kv.Key); vcgo gives a []byte->string conversion only its length,
+// so "result <==> two pairs have equal keys" cannot be stated. What can: a single pair is never a duplicate.
+//@ func (Meta) HasDuplicateKeys
+//@   mode int
+//@   ensures result ==> len(m.KeyVals) >= 2
+//@   loop 0 invariant rangeidx0 == 0 ==> forall s string :: !has(seen, s)
+
+// Bytes panics exactly when MarshalBinary fails (a limit is exceeded).
+//@ func (*Meta) Bytes
+//@   mode int
+//@   panics len(m.KeyVals) > 255 || (exists i int :: 0 <= i && i < len(m.KeyVals) && (len(m.KeyVals[i].Key) > 255 || len(m.KeyVals[i].Value) > 255))
